@@ -343,6 +343,42 @@ def _uvl_code_mask(text):
     return mask
 
 
+def uvl_prefix_is_invalid(text, cut):
+    """Is text[:cut] certainly not a UVL document?  True when the cut falls strictly inside a
+    quoted identifier / string, inside an open bracket, or right after a binary operator.
+    (False means 'no opinion'.)"""
+    if cut <= 0 or cut >= len(text):
+        return False
+    for a, b, what in _uvl_spans(text):
+        if what in ("dq", "sq") and a < cut <= b:
+            return True
+        if what == "comment" and a < cut <= b:
+            return False
+    mask = _uvl_code_mask(text)
+    depth = 0
+    last = ""
+    prev = ""
+    for pos in range(cut):
+        if not mask[pos]:
+            if not text[pos].isspace():
+                prev, last = last, "x"
+            continue
+        ch = text[pos]
+        if ch in "{[(":
+            depth += 1
+        elif ch in "}])":
+            depth -= 1
+        if not ch.isspace():
+            prev, last = last, ch
+    if depth > 0:
+        return True
+    if last in "&|+*/" and last:
+        return True
+    if last == ">" and prev == "=":       # '=>' and '<=>'
+        return True
+    return False
+
+
 def _strip_comment(line):
     pos = line.find("//")
     return line if pos < 0 else line[:pos]
